@@ -232,6 +232,11 @@ impl<'a> Cx<'a> {
                     }
                 }
                 let last = segs.last().unwrap().clone();
+                if self.stack_mode() && segs.len() == 1 && last == "N" {
+                    // the const parameter of `Stack<T, N>`: the length of the boxed array
+                    let arr = self.place("self.stack")?;
+                    return Ok(pure(format!("(Rs.len {})", arr.lean), LT::I("usize")));
+                }
                 if let Some(v) = self.const_value(&last) {
                     let ty = match want {
                         Some(t @ LT::I(_)) | Some(t @ LT::BV(_)) => t.clone(),
@@ -348,6 +353,19 @@ impl<'a> Cx<'a> {
                 self.un(format!("field access `{}` not modelled", toks(e)))
             }
             Expr::Unary(u) => match u.op {
+                UnOp::Deref(_) if self.stack_mode() => {
+                    // `*p` for a pointer into the boxed array: the cell at that offset (outside the array: undefined behaviour, a panic of
+                    // the translation)
+                    let p = self.expr(&u.expr, Some(&LT::I("isize")))?;
+                    if p.ty != LT::I("isize") {
+                        return self.un("dereference of something that is not a pointer into the stack's array");
+                    }
+                    let arr = self.place("self.stack")?;
+                    let mut pre = p.pre;
+                    let v = self.fresh("t");
+                    pre.push(Pre::Bind(v.clone(), format!("(Rs.idx {} {})", arr.lean, p.term)));
+                    Ok(Tx { pre, term: v, ty: LT::Value })
+                }
                 UnOp::Deref(_) => self.expr(&u.expr, want),
                 UnOp::Not(_) => {
                     let x = self.expr(&u.expr, want)?;
@@ -380,6 +398,14 @@ impl<'a> Cx<'a> {
                 _ => self.un("unary operator not modelled"),
             },
             Expr::Cast(c) => {
+                if self.stack_mode() && matches!(&*c.ty, syn::Type::Ptr(_)) {
+                    // `p as *mut _` / `as *const T` between pointers into the boxed array: the same offset
+                    let x = self.expr(&c.expr, Some(&LT::I("isize")))?;
+                    if x.ty != LT::I("isize") {
+                        return self.un("cast to a pointer of something that is not a pointer into the stack's array");
+                    }
+                    return Ok(x);
+                }
                 let to = self.syn_ty(&c.ty);
                 let hint = to.clone();
                 let x = self.expr(&c.expr, Some(&hint))?;
@@ -391,7 +417,20 @@ impl<'a> Cx<'a> {
                         let l = self.expr(&b.left, Some(&LT::Bool))?;
                         let r = self.expr(&b.right, Some(&LT::Bool))?;
                         if !r.pre.is_empty() {
-                            return self.un("right operand of a short-circuit operator can panic or exit; not modelled");
+                            // the right operand can panic: it is evaluated only when the left one does not decide (no `?` / exits inside)
+                            if r.pre.iter().any(|p| matches!(p, Pre::Try(..) | Pre::BindVm(..))) || l.ty != LT::Bool || r.ty != LT::Bool {
+                                return self.un("right operand of a short-circuit operator can exit or changes the interpreter state; not modelled");
+                            }
+                            let v = self.fresh("t");
+                            let rb = wrap_pre(&r.pre, format!("(Rs.M.ok {})", r.term));
+                            let term = if matches!(b.op, BinOp::And(_)) {
+                                format!("(if {} then {} else (Rs.M.ok false))", l.term, rb)
+                            } else {
+                                format!("(if {} then (Rs.M.ok true) else {})", l.term, rb)
+                            };
+                            let mut pre = l.pre;
+                            pre.push(Pre::Bind(v.clone(), term));
+                            return Ok(Tx { pre, term: v, ty: LT::Bool });
                         }
                         let o = if matches!(b.op, BinOp::And(_)) { "&&" } else { "||" };
                         return Ok(Tx { pre: l.pre, term: format!("({} {} {})", l.term, o, r.term), ty: LT::Bool });
@@ -1156,6 +1195,17 @@ impl<'a> Cx<'a> {
                 Ok(Tx { pre, term: format!("({} + {})", recv.term, a.term), ty: LT::I("isize") })
             }
             ("len", 0, LT::List(_)) => Ok(Tx { pre: recv.pre, term: format!("(Rs.len {})", recv.term), ty: LT::I("usize") }),
+            // `self.stack.as_ptr()`: the start of the boxed array = offset 0
+            ("as_ptr", 0, LT::List(_)) if self.stack_mode() => Ok(Tx { pre: recv.pre, term: "(0 : Int)".into(), ty: LT::I("isize") }),
+            ("offset_from", 1, LT::I("isize")) if self.stack_mode() => {
+                let a = self.expr(args[0], Some(&LT::I("isize")))?;
+                if a.ty != LT::I("isize") {
+                    return self.un("offset_from of something that is not a pointer into the stack's array");
+                }
+                let mut pre = recv.pre;
+                pre.extend(a.pre);
+                Ok(Tx { pre, term: format!("({} - {})", recv.term, a.term), ty: LT::I("isize") })
+            }
             ("iter", 0, LT::List(_)) => Ok(recv),
             ("rev", 0, LT::List(_)) => Ok(Tx { pre: recv.pre, term: format!("(List.reverse {})", recv.term), ty: recv.ty }),
             ("enumerate", 0, LT::List(t)) => Ok(Tx {
